@@ -174,13 +174,19 @@ def run_case(case) -> Result:
         kind = step[0]
         if kind == "configure":
             # a permanent change made inside a block belongs to that block's level
-            client.configure(**kwargs(step[1]))
+            try:
+                client.configure(**kwargs(step[1]))
+            except Exception as e:  # noqa
+                return result("%s: configure() with valid settings raised %s: %s" % (where, type(e).__name__, e))
             model[-1] = apply(model[-1], step[1])
         elif kind == "enter":
             if len(cms) >= 4:
                 continue
-            cm = client.reconfigure(**kwargs(step[1]))
-            cm.__enter__()
+            try:
+                cm = client.reconfigure(**kwargs(step[1]))
+                cm.__enter__()
+            except Exception as e:  # noqa
+                return result("%s: reconfigure() with valid settings raised %s: %s" % (where, type(e).__name__, e))
             cms.append(cm)
             model.append(apply(model[-1], step[1]))
             if len(cms) >= 2:
@@ -200,7 +206,10 @@ def run_case(case) -> Result:
                 except _Boom:
                     pass
             else:
-                cm.__exit__(None, None, None)
+                try:
+                    cm.__exit__(None, None, None)
+                except Exception as e:  # noqa
+                    return result("%s: leaving the block raised %s: %s" % (where, type(e).__name__, e))
         elif kind == "request":
             msg = do_request(step[1], where)
             if msg:
